@@ -12,35 +12,44 @@ variable {α : Type}
 /-! ### Laziness -/
 
 /-- Building and composing is silent: for EVERY composition tree and from every state, a script of operations
-    that only construct/compose (`b`, ObserveOn `o*`, SubscribeOn `u*`, a further FlatMap `d*`) leaves the world exactly as it was
+    that only construct/compose (`b`, ObserveOn `o*`, SubscribeOn `u*`) leaves the world exactly as it was
     and reports no event.  (In the model the constructors are values — `World` is not an argument of
     `just/new/flatMap/observeOn/subscribeOn`; that the Go constructors behave like that is carried by the
     correspondence, which prints the events seen after every such operation, and by `C11_skeleton`: the effect
     closure is invoked only from `doEffect`, and `doEffect`/`fn` are called only inside closures.) -/
 theorem C11_lazy (ops : List String)
-    (h : ∀ op ∈ ops, parseOp op = some .build ∨ (∃ h, parseOp op = some (.ob h)) ∨ (∃ h, parseOp op = some (.so h)) ∨
-      (∃ c, parseOp op = some (.derive c))) :
-    ∀ (m : M Nat) (w : World),
-      (foldOps stepOp (m, w) ops).1.2 = w ∧ runOps stepOp (m, w) ops = ops.map (fun _ => "-") := by
+    (h : ∀ op ∈ ops, parseOp op = some (.basic .build) ∨ (∃ h, parseOp op = some (.basic (.ob h))) ∨
+      (∃ h, parseOp op = some (.basic (.so h))) ∨ (∃ j, parseOp op = some (.sel j)) ∨
+      (∃ j c b, parseOp op = some (.derive j c b))) :
+    ∀ (st : ISt), (foldOps stepOp st ops).1.w = st.w := by
   induction ops with
-  | nil => intro m w; exact ⟨rfl, rfl⟩
+  | nil => intro st; rfl
   | cons op ops ih =>
-    intro m w
+    intro st
     have hop := h op (by simp)
     have ih' := ih (fun o ho => h o (by simp [ho]))
-    rw [foldOps_cons, runOps_cons]
-    rcases hop with hb | ⟨hh, hb⟩ | ⟨hh, hb⟩ | ⟨hh, hb⟩ <;>
-      (simp only [stepOp, hb, implOp, List.map_cons]; exact ⟨(ih' _ w).1, by rw [(ih' _ w).2]⟩)
+    rw [foldOps_cons]
+    show (foldOps stepOp (stepOp st op).1 ops).1.w = st.w
+    rw [ih']
+    rcases hop with hb | ⟨hh, hb⟩ | ⟨hh, hb⟩ | ⟨j, hb⟩ | ⟨j, c, b, hb⟩ <;> simp only [stepOp, hb, implStep]
+    · cases st.regs st.cur <;> simp only []
+      split <;> rfl
+    · cases st.regs st.cur <;> simp only []
+      split <;> rfl
+    · cases st.regs st.cur <;> simp only []
+      split <;> rfl
+    · cases st.regs j <;> rfl
+    · cases st.regs st.cur <;> rfl
 
-/-- the initial world of every case is empty whatever the tree: construction of `den t 0` contributes nothing -/
+/-- every case starts from the empty world, nothing pending, whatever the tree: construction of `den t 0` contributes
+    nothing -/
 theorem C11_lazy_initial (line : String) (t : Tree) (hp : parseHead (splitCase line).1 = some t) :
-    handle line = " | ".intercalate (runOps stepOp (den t 0, w0) (splitCase line).2) := by
-  simp [handle, hp]
+    handle line = " | ".intercalate (runOps stepOp (istInit t (headAllowsSame (splitCase line).1)) (splitCase line).2) ∧
+      ∀ b, (istInit t b).w = w0 := by
+  simp [handle, hp, istInit]
 
-example : runOps stepOp (den (.FL 1 (.N 1) (.N 2)) 0, w0) ["b", "o1", "u2"] = ["-", "-", "-"] := by decide
-example : ∀ op ∈ ["b", "o1", "u2"], parseOp op = some .build ∨ (∃ h, parseOp op = some (.ob h)) ∨ (∃ h, parseOp op = some (.so h)) ∨
-    (∃ c, parseOp op = some (.derive c)) := by
-  simp [parseOp]
+example : (implStep (implStep (implStep (istInit (.FL 1 (.N 1) (.N 2))) (.basic (.ob (some .h1)))).1 (.derive 1 4 (.N 3))).1 (.sel 1)).1.w = w0
+    ∧ (implStep (implStep (istInit (.FL 1 (.N 1) (.N 2))) (.derive 1 4 (.N 3))).1 (.sel 1)).2 = "-" := ⟨rfl, rfl⟩
 
 /-! ### Exactly once, in composition order -/
 
@@ -71,6 +80,7 @@ theorem C11_once_static (t : Tree) (hs : t.static = true) : ∀ (v n : Nat),
   | N id => intro v n; simp [run, labels, Kind.label]
   | W id => intro v n; simp [run, labels, Kind.label]
   | H id => intro v n; simp [run, labels, Kind.label]
+  | G id => intro v n; simp [run, labels, Kind.label]
 
 /-- … hence one Eval of a static composition logs, after the old log, exactly the syntactic sequence of its
     effects/continuations, all on the evaluating goroutine — and `k` Evals log it `k` times (`C11_once`
@@ -156,12 +166,189 @@ theorem C11_yieldFromIO (m : M Nat) (g : Tag) (w : World) :
   rw [C11_subscribe_once]
   rfl
 
+/-! ### Several objects derived from one object; subscriptions in flight -/
+
+/-- Deriving is composing: the object stored by `derive` denotes `m.FlatMap(f)` of the object it was derived from —
+    whatever else has been or will be derived from that same object (values are immutable: siblings are independent,
+    the base is unchanged). -/
+theorem C11_derive_independent (st : ISt) (j c : Nat) (b : Tree) (m : M Nat) (hm : st.regs st.cur = some m) :
+    (implStep st (.derive j c b)).1.regs j = some (flatMap m (kont c (fun x => den b x))) ∧
+    (∀ k, k ≠ j → (implStep st (.derive j c b)).1.regs k = st.regs k) ∧ (implStep st (.derive j c b)).1.w = st.w := by
+  simp only [implStep]
+  rw [hm]
+  exact ⟨by simp [setReg], fun k hk => by simp [setReg, hk], rfl⟩
+
+/-- doSubscribe is the cut version run to completion: the delivery is a resumption that depends only on the value
+    the effect produced and on the handler pair passed to doSubscribe — the pair in force when Subscribe was called. -/
+theorem C11_subscribe_split (m : M α) (onNext : α → Tag → World → World) (ob sub : Option Tag) (g : Tag) (w : World) :
+    doSubscribe m ⟨some onNext⟩ ob sub g w =
+      (doSubscribeSplit m onNext ob sub g w).2 (doSubscribeSplit m onNext ob sub g w).1 := by
+  rw [C11_subscribe_once]; rfl
+
+/-- A gated subscription delivers where ITS handler pair says, whatever is done to the object while it is in flight:
+    after any operations in between that leave the pending subscription alone, opening the gate appends exactly one
+    delivery of the value of the composition on `sub.getD ob` as they were at Subscribe. -/
+theorem C11_gated_delivery (st : ISt) (m : M Nat) (hb : Tag) (hm : st.regs st.cur = some m) (hp : st.pend = none)
+    (hob : m.obOn = some hb) (hns : (!st.allowSame && sameUnbuffered m.obOn m.subOn) = false) :
+    ∃ k, (implStep st .gsub).1.pend = some (hb, k) ∧
+      ∀ w', k w' = w'.emit (.next (eval m hb st.w).1) (m.subOn.getD hb) := by
+  simp only [implStep]
+  rw [hm, hp]
+  rw [hob] at hns
+  simp only [hob, hns]
+  exact ⟨_, rfl, fun w' => rfl⟩
+
 /-! ### The model the driver runs refines the Spec on every case line -/
 
-/-- For every case line (any tree, any script of Eval / Subscribe / nil-Subscribe / YieldFromIO /
-    ObserveOn / SubscribeOn operations, any number of evaluations), the implementation model prints exactly
-    what the property's statement (`specCase`: chain once per evaluation in composition order, value of the
-    composition, effect on h1's goroutine, delivery on h2's, nothing without OnNext) prescribes. -/
+/-- one object and the world vs. the statement's view of it -/
+def RelB (s : M Nat × World) (st : SpecSt) : Prop :=
+  s.1.effect = (den st.t 0).effect ∧ s.1.obOn = st.ob ∧ s.1.subOn = st.sub ∧ s.2.log.length = st.n
+
+theorem basic_step (m : M Nat) (w : World) (st : SpecSt) (o : BOp) (hrel : RelB (m, w) st) :
+    RelB (implOp (m, w) o).1 (specOp' st o).1 ∧ (implOp (m, w) o).2 = (specOp' st o).2 := by
+  obtain ⟨he, hob, hsub, hn⟩ := hrel
+  simp only at he hob hsub hn
+  have hev : ∀ g w', eval m g w' = ((run st.t 0 w'.log.length).1, w'.emits (run st.t 0 w'.log.length).2 g) := by
+    intro g w'; unfold eval doEffect; rw [he]; exact den_effect st.t 0 g w'
+  have hsubs : ∀ w', subscribe m ⟨some logNext⟩ .main w' =
+      (w'.emits (run st.t 0 w'.log.length).2 (st.ob.getD .main)).emit (.next (run st.t 0 w'.log.length).1)
+        (st.sub.getD (st.ob.getD .main)) := by
+    intro w'; unfold subscribe; rw [C11_subscribe_once, hev, hob, hsub]; rfl
+  cases o with
+  | build => exact ⟨⟨he, hob, hsub, hn⟩, rfl⟩
+  | ob h => exact ⟨⟨he, rfl, hsub, hn⟩, rfl⟩
+  | so h => exact ⟨⟨he, hob, rfl, hn⟩, rfl⟩
+  | eval =>
+    simp only [implOp, specOp', hev, drop_emits, showEvs_kinds]
+    rw [← hn]
+    exact ⟨⟨he, hob, hsub, by simp⟩, rfl⟩
+  | sub =>
+    simp only [implOp, specOp', hsubs, drop_emits_emit, showEvs_kinds_next]
+    rw [← hn]
+    exact ⟨⟨he, hob, hsub, by simp [Nat.add_assoc]⟩, rfl⟩
+  | subNil =>
+    exact ⟨⟨he, hob, hsub, hn⟩, by simp [implOp, specOp', subscribe, C11_subscribe_nil, showEvs, joinEvs]⟩
+  | yield =>
+    have hev0 := hev (st.ob.getD .main) { w with cell := 0 }
+    have hd := drop_emits { w with cell := 0 } (run st.t 0 w.log.length).2 (st.ob.getD .main)
+    simp only [implOp, specOp', C11_yieldFromIO, hob, hev0]
+    rw [← hn]
+    refine ⟨⟨he, hob, rfl, by simp⟩, ?_⟩
+    show _ ++ toString (showEvs (List.drop w.log.length _)) = _
+    rw [hd, showEvs_kinds]
+
+/-- an object of the model vs. an object of the Spec -/
+def RelReg : Option (M Nat) → Option SReg → Prop
+  | none, none => True
+  | some m, some r => m.effect = (den r.t 0).effect ∧ m.obOn = r.ob ∧ m.subOn = r.sub
+  | _, _ => False
+
+def RelPend : Option (Tag × (World → World)) → Option (Tag × Nat × Tag) → Prop
+  | none, none => True
+  | some (hb, k), some (hb', v, g2) => hb = hb' ∧ k = fun w => w.emit (.next v) g2
+  | _, _ => False
+
+def Rel (s : ISt) (t : SSt) : Prop :=
+  (∀ k, RelReg (s.regs k) (t.regs k)) ∧ s.cur = t.cur ∧ s.w.log.length = t.n ∧ RelPend s.pend t.pend ∧
+    s.allowSame = t.allowSame
+
+theorem relReg_set {regs : Nat → Option (M Nat)} {sregs : Nat → Option SReg} (h : ∀ k, RelReg (regs k) (sregs k))
+    (j j' : Nat) (hj : j = j') (m : M Nat) (r : SReg) (hr : RelReg (some m) (some r)) :
+    ∀ k, RelReg (setReg regs j m k) (setReg sregs j' r k) := by
+  subst hj
+  intro k; unfold setReg; by_cases hk : k = j <;> simp [hk, hr, h k]
+
+theorem rel_step (s : ISt) (t : SSt) (o : Op) (h : Rel s t) :
+    Rel (implStep s o).1 (specStep t o).1 ∧ (implStep s o).2 = (specStep t o).2 := by
+  obtain ⟨hregs, hcur, hn, hpend, hsame⟩ := h
+  have hcurReg : RelReg (s.regs s.cur) (t.regs t.cur) := hcur ▸ hregs s.cur
+  cases o with
+  | sel j =>
+    have hj := hregs j
+    simp only [implStep, specStep]
+    revert hj
+    cases s.regs j <;> cases t.regs j <;> intro hj <;> simp only [RelReg] at hj
+    · exact ⟨⟨hregs, hcur, hn, hpend, hsame⟩, rfl⟩
+    · exact ⟨⟨hregs, rfl, hn, hpend, hsame⟩, rfl⟩
+  | derive j c b =>
+    simp only [implStep, specStep]
+    revert hcurReg
+    cases s.regs s.cur <;> cases t.regs t.cur <;> intro hr <;> simp only [RelReg] at hr
+    · exact ⟨⟨hregs, hcur, hn, hpend, hsame⟩, rfl⟩
+    · rename_i m r
+      refine ⟨⟨relReg_set hregs j j rfl _ _ ⟨?_, rfl, rfl⟩, hcur, hn, hpend, hsame⟩, rfl⟩
+      simp only [den, flatMap, doEffect, hr.1]
+  | gopen =>
+    simp only [implStep, specStep]
+    cases hpi : s.pend <;> cases hps : t.pend <;> (have hp' := hpend; rw [hpi, hps] at hp'; simp only [RelPend] at hp')
+    · exact ⟨⟨hregs, hcur, hn, hpend, hsame⟩, rfl⟩
+    · rename_i p q
+      obtain ⟨hb, k⟩ := p
+      obtain ⟨hb', v, g2⟩ := q
+      simp only [RelPend] at hp'
+      obtain ⟨_, rfl⟩ := hp'
+      refine ⟨⟨hregs, hcur, ?_, trivial, hsame⟩, ?_⟩
+      · show (s.w.emit _ _).log.length = t.n + 1
+        simp [hn]
+      · show showEvs ((s.w.emit _ _).log.drop s.w.log.length) = _
+        simp [showEvs, joinEvs, showKinds]
+  | gsub =>
+    simp only [implStep, specStep]
+    revert hcurReg
+    cases s.regs s.cur <;> cases t.regs t.cur <;> intro hr <;> simp only [RelReg] at hr
+    · exact ⟨⟨hregs, hcur, hn, hpend, hsame⟩, rfl⟩
+    · rename_i m r
+      cases hpi : s.pend <;> cases hps : t.pend <;> (have hp' := hpend; rw [hpi, hps] at hp'; simp only [RelPend] at hp')
+      · dsimp only
+        rw [hr.2.1, hr.2.2, hsame]
+        cases hob : (if (!t.allowSame && sameUnbuffered r.ob r.sub) = true then none else r.ob) with
+        | none => exact ⟨⟨hregs, hcur, hn, hpend, hsame⟩, rfl⟩
+        | some hb =>
+          have hobr : r.ob = some hb := by
+            revert hob; split <;> intro hob
+            · cases hob
+            · exact hob
+          have hev : doEffect m hb s.w = ((run r.t 0 s.w.log.length).1, s.w.emits (run r.t 0 s.w.log.length).2 hb) := by
+            unfold doEffect; rw [hr.1]; exact den_effect r.t 0 hb s.w
+          dsimp only
+          simp only [doSubscribeSplit, hobr, Option.getD_some]
+          refine ⟨⟨hregs, hcur, ?_, ?_, rfl⟩, ?_⟩
+          · show (doEffect m hb s.w).2.log.length = _
+            rw [hev, ← hn]; simp
+          · show RelPend (some (hb, _)) (some (hb, _, _))
+            refine ⟨rfl, ?_⟩
+            show (fun w' => logNext (doEffect m hb s.w).1 (r.sub.getD hb) w') = _
+            rw [hev, ← hn]; rfl
+          · show showEvs ((doEffect m hb s.w).2.log.drop s.w.log.length) = _
+            rw [hev, drop_emits, showEvs_kinds, ← hn]
+      · exact ⟨⟨hregs, hcur, hn, hpend, hsame⟩, rfl⟩
+  | basic o =>
+    simp only [implStep, specStep]
+    revert hcurReg
+    cases s.regs s.cur <;> cases t.regs t.cur <;> intro hr <;> simp only [RelReg] at hr
+    · exact ⟨⟨hregs, hcur, hn, hpend, hsame⟩, rfl⟩
+    · rename_i m r
+      have hguard : guarded s.allowSame s.pend m.obOn m.subOn o = guarded t.allowSame t.pend r.ob r.sub o := by
+        cases hpi : s.pend <;> cases hps : t.pend <;> (have hp' := hpend; rw [hpi, hps] at hp'; simp only [RelPend] at hp')
+        · simp only [guarded, hr.2.1, hr.2.2, hsame]
+        · rename_i p q
+          obtain ⟨hb, k⟩ := p
+          obtain ⟨hb', v, g2⟩ := q
+          simp only [RelPend] at hp'
+          simp only [guarded, hp'.1, hr.2.1, hr.2.2, hsame]
+      dsimp only
+      rw [hguard]
+      split
+      · exact ⟨⟨hregs, hcur, hn, hpend, hsame⟩, rfl⟩
+      · have hb := basic_step m s.w ⟨r.t, r.ob, r.sub, t.n⟩ o ⟨hr.1, hr.2.1, hr.2.2, hn⟩
+        obtain ⟨⟨h1, h2, h3, h4⟩, hout⟩ := hb
+        exact ⟨⟨relReg_set hregs _ _ hcur _ _ ⟨h1, h2, h3⟩, hcur, h4, hpend, hsame⟩, hout⟩
+
+/-- For every case line (any tree; any script of Eval / Subscribe / nil-Subscribe / YieldFromIO / ObserveOn /
+    SubscribeOn operations on up to four objects, objects derived from a common object, a gated subscription with
+    operations while it is in flight; any number of evaluations), the implementation model prints exactly what the
+    property's statement (`specCase`: chain once per evaluation in composition order, value of the composition, effect on
+    h1's goroutine, delivery on h2's — the pair in force when Subscribe was called —, nothing without OnNext) prescribes. -/
 theorem C11_model_refines_spec (line : String) : handle line = specCase line := by
   unfold handle specCase
   cases hp : parseHead (splitCase line).1 with
@@ -169,63 +356,16 @@ theorem C11_model_refines_spec (line : String) : handle line = specCase line := 
   | some t =>
     simp only [hp]
     congr 1
-    refine runOps_eq (fun (s : M Nat × World) (st : SpecSt) =>
-      s.1.effect = (den st.t 0).effect ∧ s.1.obOn = st.ob ∧ s.1.subOn = st.sub ∧ s.2.log.length = st.n)
-      stepOp specOp ?_ _ _ _ ⟨rfl, den_obOn t 0, den_subOn t 0, rfl⟩
-    rintro ⟨m, w⟩ ⟨t', ob', sub', n'⟩ op ⟨he, hob, hsub, hn⟩
-    simp only at he hob hsub hn
-    subst hn hob hsub
-    generalize hst : (⟨t', m.obOn, m.subOn, w.log.length⟩ : SpecSt) = st
-    have hob : m.obOn = st.ob := by rw [← hst]
-    have hsub : m.subOn = st.sub := by rw [← hst]
-    have hn : w.log.length = st.n := by rw [← hst]
-    have he : m.effect = (den st.t 0).effect := by rw [← hst]; exact he
-    have hev : ∀ g w', eval m g w' = ((run st.t 0 w'.log.length).1, w'.emits (run st.t 0 w'.log.length).2 g) := by
-      intro g w'; unfold eval doEffect; rw [he]; exact den_effect st.t 0 g w'
-    have hsubs : ∀ w', subscribe m ⟨some logNext⟩ .main w' =
-        (w'.emits (run st.t 0 w'.log.length).2 (st.ob.getD .main)).emit (.next (run st.t 0 w'.log.length).1)
-          (st.sub.getD (st.ob.getD .main)) := by
-      intro w'; unfold subscribe; rw [C11_subscribe_once, hev, hob, hsub]; rfl
-    unfold stepOp specOp
-    cases parseOp op with
-    | none => exact ⟨⟨he, hob, hsub, hn⟩, rfl⟩
-    | some o =>
-      cases o with
-      | build => exact ⟨⟨he, hob, hsub, hn⟩, rfl⟩
-      | ob h => exact ⟨⟨he, rfl, hsub, hn⟩, rfl⟩
-      | so h => exact ⟨⟨he, hob, rfl, hn⟩, rfl⟩
-      | race h =>
-        have hsubs1 : ∀ w', subscribe (observeOn m (some .h3)) ⟨some logNext⟩ .main w' =
-            (w'.emits (run st.t 0 w'.log.length).2 .h3).emit (.next (run st.t 0 w'.log.length).1) (st.sub.getD .h3) := by
-          intro w'
-          have e1 : subscribe (observeOn m (some .h3)) ⟨some logNext⟩ .main w'
-              = doSubscribe m ⟨some logNext⟩ (some .h3) m.subOn .main w' := rfl
-          rw [e1, C11_subscribe_once, hev, hsub]; rfl
-        simp only [implOp, specOp', hsubs1, drop_emits_emit, showEvs_kinds_next]
-        rw [← hn]
-        exact ⟨⟨he, rfl, rfl, by simp [Nat.add_assoc]⟩, rfl⟩
-      | derive c =>
-        refine ⟨⟨?_, rfl, rfl, hn⟩, rfl⟩
-        show (flatMap m (kont c (fun x => den (.V 1) x))).effect = (den (.FL c st.t (.V 1)) 0).effect
-        simp only [den, flatMap, doEffect, he]
-      | eval =>
-        simp only [implOp, specOp', hev, drop_emits, showEvs_kinds]
-        rw [← hn]
-        exact ⟨⟨he, hob, hsub, by simp⟩, rfl⟩
-      | sub =>
-        simp only [implOp, specOp', hsubs, drop_emits_emit, showEvs_kinds_next]
-        rw [← hn]
-        exact ⟨⟨he, hob, hsub, by simp [Nat.add_assoc]⟩, rfl⟩
-      | subNil =>
-        exact ⟨⟨he, hob, hsub, hn⟩, by simp [implOp, specOp', subscribe, C11_subscribe_nil, showEvs, joinEvs]⟩
-      | yield =>
-        have hev0 := hev (st.ob.getD .main) { w with cell := 0 }
-        have hd := drop_emits { w with cell := 0 } (run st.t 0 w.log.length).2 (st.ob.getD .main)
-        simp only [implOp, specOp', C11_yieldFromIO, hob, hev0]
-        rw [← hn]
-        refine ⟨⟨he, hob, rfl, by simp⟩, ?_⟩
-        show _ ++ toString (showEvs (List.drop w.log.length _)) = _
-        rw [hd, showEvs_kinds]
+    refine runOps_eq Rel stepOp specOp ?_ _ _ _ ?_
+    · intro s st op h
+      unfold stepOp specOp
+      cases parseOp op with
+      | none => exact ⟨h, rfl⟩
+      | some o => exact rel_step s st o h
+    · refine ⟨?_, rfl, rfl, trivial, rfl⟩
+      intro k
+      unfold istInit sstInit setReg
+      by_cases hk : k = 0 <;> simp [hk, RelReg, den_obOn, den_subOn]
 
 /-! ### Tie to the source: protocol skeletons regenerated from monadIO.go on every run -/
 
